@@ -149,7 +149,7 @@ func (q *Queue[T]) BlockingAdd(ctx context.Context, item T) error {
 
 	// If the context terminates, wake the waiter.
 	ctx, cancel := context.WithCancel(ctx)
-	go func() { <-ctx.Done(); cond.Broadcast() }()
+	go func() { <-ctx.Done(); q.mu.Lock(); defer q.mu.Unlock(); cond.Broadcast() }()
 	defer cancel()
 
 	for q.tracker.cap() <= q.tracker.len() {
@@ -202,7 +202,7 @@ func (q *Queue[T]) Wait(ctx context.Context) (out T, _ error) {
 func (q *Queue[T]) unsafeWaitWhileEmpty(ctx context.Context) error {
 	// If the context terminates, wake the waiter.
 	ctx, cancel := context.WithCancel(ctx)
-	go func() { <-ctx.Done(); q.nempty.Broadcast() }()
+	go func() { <-ctx.Done(); q.mu.Lock(); defer q.mu.Unlock(); q.nempty.Broadcast() }()
 	defer cancel()
 
 	for q.tracker.len() == 0 {
@@ -226,7 +226,7 @@ func (q *Queue[T]) waitForNew(ctx context.Context) error {
 
 	// when the function returns wake all other waiters.
 	ctx, cancel := context.WithCancel(ctx)
-	go func() { <-ctx.Done(); q.nupdates.Broadcast() }()
+	go func() { <-ctx.Done(); q.mu.Lock(); defer q.mu.Unlock(); q.nupdates.Broadcast() }()
 	defer cancel()
 
 	head := q.back
